@@ -42,7 +42,7 @@ def u16 (b : List Nat) : Option Nat := do
 abbrev Res (α : Type) := Option (Except RErr α)
 
 /-- `readByte(p)`: `if len(p) == 0 { return nil, 0, io.ErrUnexpectedEOF }; return p[1:], p[0], nil`. -/
-def readByte (p : List Nat) : Res (List Nat × Nat) :=
+def readByte (p : List Nat) : Option (Except RErr (List Nat × Nat)) :=
   if p.length = 0 then some (.error .unexpectedEOF)
   else do
     let rest ← sliceFrom p 1
@@ -50,7 +50,7 @@ def readByte (p : List Nat) : Res (List Nat × Nat) :=
     pure (.ok (rest, b))
 
 /-- `readUint32(p)`: `if len(p) < 4 { … ErrUnexpectedEOF }; return p[4:], binary.BigEndian.Uint32(p[:4]), nil`. -/
-def readUint32 (p : List Nat) : Res (List Nat × Nat) :=
+def readUint32 (p : List Nat) : Option (Except RErr (List Nat × Nat)) :=
   if p.length < 4 then some (.error .unexpectedEOF)
   else do
     let rest ← sliceFrom p 4
@@ -59,52 +59,57 @@ def readUint32 (p : List Nat) : Res (List Nat × Nat) :=
 
 /-! ### the per-type parsers -/
 
+/-- the tail of `parseDataFrame`: the pad check and `payload[:len(payload)-int(padSize)]`. -/
+def dataTail (fh : FrameHeader) (payload : List Nat) (padSize : Nat) : Option (Except RErr Frame) :=
+  if (padSize : Int) > payload.length then some (.error (.conn errCodeProtocol))
+  else do
+    let d ← sliceTo payload ((payload.length : Int) - (padSize : Int))
+    pure (.ok (.data fh d))
+
 /-- `parseDataFrame`. -/
-def parseData (fh : FrameHeader) (payload : List Nat) : Res Frame :=
+def parseData (fh : FrameHeader) (payload : List Nat) : Option (Except RErr Frame) :=
   if fh.streamID = 0 then some (.error (.conn errCodeProtocol))
-  else
-    let tail (payload : List Nat) (padSize : Nat) : Res Frame :=
-      if (padSize : Int) > payload.length then some (.error (.conn errCodeProtocol))
-      else do
-        let d ← sliceTo payload ((payload.length : Int) - (padSize : Int))   -- payload[:len(payload)-int(padSize)]
-        pure (.ok (.data fh d))
-    if hasFlag fh.flags flagPadded then
-      match readByte payload with
+  else if hasFlag fh.flags flagPadded then
+    match readByte payload with
+    | none => none
+    | some (.error e) => some (.error e)
+    | some (.ok (rest, padSize)) => dataTail fh rest padSize
+  else dataTail fh payload 0
+
+/-- the end of `parseHeadersFrame`: `if len(p)-int(padLength) < 0 {…}; p[:len(p)-int(padLength)]`. -/
+def headersFin (fh : FrameHeader) (p : List Nat) (padLength : Nat) (prio : PriorityParam) :
+    Option (Except RErr Frame) :=
+  if (p.length : Int) - (padLength : Int) < 0 then some (.error (.stream fh.streamID errCodeProtocol))
+  else do
+    let frag ← sliceTo p ((p.length : Int) - (padLength : Int))
+    pure (.ok (.headers fh prio frag))
+
+/-- the PRIORITY part of `parseHeadersFrame`. -/
+def headersPrio (fh : FrameHeader) (p : List Nat) (padLength : Nat) : Option (Except RErr Frame) :=
+  if hasFlag fh.flags flagPriority then
+    match readUint32 p with
+    | none => none
+    | some (.error e) => some (.error e)
+    | some (.ok (p1, v)) =>
+      match readByte p1 with
       | none => none
       | some (.error e) => some (.error e)
-      | some (.ok (rest, padSize)) => tail rest padSize
-    else tail payload 0
+      | some (.ok (p2, w)) =>
+        headersFin fh p2 padLength { streamDep := v % 2147483648, exclusive := v != v % 2147483648, weight := w }
+  else headersFin fh p padLength {}
 
 /-- `parseHeadersFrame`. -/
-def parseHeaders (fh : FrameHeader) (p : List Nat) : Res Frame :=
+def parseHeaders (fh : FrameHeader) (p : List Nat) : Option (Except RErr Frame) :=
   if fh.streamID = 0 then some (.error (.conn errCodeProtocol))
-  else
-    let fin (p : List Nat) (padLength : Nat) (prio : PriorityParam) : Res Frame :=
-      if (p.length : Int) - (padLength : Int) < 0 then some (.error (.stream fh.streamID errCodeProtocol))
-      else do
-        let frag ← sliceTo p ((p.length : Int) - (padLength : Int))   -- p[:len(p)-int(padLength)]
-        pure (.ok (.headers fh prio frag))
-    let prioPart (p : List Nat) (padLength : Nat) : Res Frame :=
-      if hasFlag fh.flags flagPriority then
-        match readUint32 p with
-        | none => none
-        | some (.error e) => some (.error e)
-        | some (.ok (p1, v)) =>
-          match readByte p1 with
-          | none => none
-          | some (.error e) => some (.error e)
-          | some (.ok (p2, w)) =>
-            fin p2 padLength { streamDep := v % 2147483648, exclusive := v != v % 2147483648, weight := w }
-      else fin p padLength {}
-    if hasFlag fh.flags flagPadded then
-      match readByte p with
-      | none => none
-      | some (.error e) => some (.error e)
-      | some (.ok (rest, padLength)) => prioPart rest padLength
-    else prioPart p 0
+  else if hasFlag fh.flags flagPadded then
+    match readByte p with
+    | none => none
+    | some (.error e) => some (.error e)
+    | some (.ok (rest, padLength)) => headersPrio fh rest padLength
+  else headersPrio fh p 0
 
 /-- `parsePriorityFrame`: `len(payload) != 5` → FRAME_SIZE; `Uint32(payload[:4])`, `payload[4]`. -/
-def parsePriority (fh : FrameHeader) (payload : List Nat) : Res Frame :=
+def parsePriority (fh : FrameHeader) (payload : List Nat) : Option (Except RErr Frame) :=
   if fh.streamID = 0 then some (.error (.conn errCodeProtocol))
   else if payload.length ≠ 5 then some (.error (.conn errCodeFrameSize))
   else do
@@ -113,7 +118,7 @@ def parsePriority (fh : FrameHeader) (payload : List Nat) : Res Frame :=
     pure (.ok (.priority fh { streamDep := v % 2147483648, exclusive := v % 2147483648 != v, weight := w }))
 
 /-- `parseRSTStreamFrame`. -/
-def parseRSTStream (fh : FrameHeader) (p : List Nat) : Res Frame :=
+def parseRSTStream (fh : FrameHeader) (p : List Nat) : Option (Except RErr Frame) :=
   if p.length ≠ 4 then some (.error (.conn errCodeFrameSize))
   else if fh.streamID = 0 then some (.error (.conn errCodeProtocol))
   else do
@@ -136,7 +141,7 @@ def settingsFrom (buf : List Nat) : Nat → Nat → Option (List (Nat × Nat))
 
 /-- `parseSettingsFrame` (the `Value(SettingInitialWindowSize)` scan reads every setting up to the hit;
 reading all `len(p)/6` of them is the superset of accesses, and is what `ForeachSetting` does later). -/
-def parseSettings (fh : FrameHeader) (p : List Nat) : Res Frame :=
+def parseSettings (fh : FrameHeader) (p : List Nat) : Option (Except RErr Frame) :=
   if hasFlag fh.flags flagAck && fh.length > 0 then some (.error (.conn errCodeFrameSize))
   else if fh.streamID != 0 then some (.error (.conn errCodeProtocol))
   else if p.length % 6 != 0 then some (.error (.conn errCodeFrameSize))
@@ -146,34 +151,35 @@ def parseSettings (fh : FrameHeader) (p : List Nat) : Res Frame :=
     | some v => if v > 2147483647 then pure (.error (.conn errCodeFlowControl)) else pure (.ok (.settings fh ss))
     | none => pure (.ok (.settings fh ss))
 
+/-- `parsePushPromise` after the pad byte. -/
+def pushRest (fh : FrameHeader) (p : List Nat) (padLength : Nat) : Option (Except RErr Frame) :=
+  match readUint32 p with
+  | none => none
+  | some (.error e) => some (.error e)
+  | some (.ok (p1, v)) =>
+    if (padLength : Int) > p1.length then some (.error (.conn errCodeProtocol))
+    else do
+      let frag ← sliceTo p1 ((p1.length : Int) - (padLength : Int))
+      pure (.ok (.pushPromise fh (v % 2147483648) frag))
+
 /-- `parsePushPromise`. -/
-def parsePushPromise (fh : FrameHeader) (p : List Nat) : Res Frame :=
+def parsePushPromise (fh : FrameHeader) (p : List Nat) : Option (Except RErr Frame) :=
   if fh.streamID = 0 then some (.error (.conn errCodeProtocol))
-  else
-    let rest (p : List Nat) (padLength : Nat) : Res Frame :=
-      match readUint32 p with
-      | none => none
-      | some (.error e) => some (.error e)
-      | some (.ok (p1, v)) =>
-        if (padLength : Int) > p1.length then some (.error (.conn errCodeProtocol))
-        else do
-          let frag ← sliceTo p1 ((p1.length : Int) - (padLength : Int))
-          pure (.ok (.pushPromise fh (v % 2147483648) frag))
-    if hasFlag fh.flags flagPadded then
-      match readByte p with
-      | none => none
-      | some (.error e) => some (.error e)
-      | some (.ok (p0, padLength)) => rest p0 padLength
-    else rest p 0
+  else if hasFlag fh.flags flagPadded then
+    match readByte p with
+    | none => none
+    | some (.error e) => some (.error e)
+    | some (.ok (p0, padLength)) => pushRest fh p0 padLength
+  else pushRest fh p 0
 
 /-- `parsePingFrame`: `copy(f.Data[:], payload)` after `len(payload) != 8` (copy never panics). -/
-def parsePing (fh : FrameHeader) (payload : List Nat) : Res Frame :=
+def parsePing (fh : FrameHeader) (payload : List Nat) : Option (Except RErr Frame) :=
   if payload.length ≠ 8 then some (.error (.conn errCodeFrameSize))
   else if fh.streamID != 0 then some (.error (.conn errCodeProtocol))
   else some (.ok (.ping fh payload))
 
 /-- `parseGoAwayFrame`: `Uint32(p[:4])`, `Uint32(p[4:8])`, `p[8:]`. -/
-def parseGoAway (fh : FrameHeader) (p : List Nat) : Res Frame :=
+def parseGoAway (fh : FrameHeader) (p : List Nat) : Option (Except RErr Frame) :=
   if fh.streamID != 0 then some (.error (.conn errCodeProtocol))
   else if p.length < 8 then some (.error (.conn errCodeFrameSize))
   else do
@@ -183,7 +189,7 @@ def parseGoAway (fh : FrameHeader) (p : List Nat) : Res Frame :=
     pure (.ok (.goAway fh (last % 2147483648) code debug))
 
 /-- `parseWindowUpdateFrame`. -/
-def parseWindowUpdate (fh : FrameHeader) (p : List Nat) : Res Frame :=
+def parseWindowUpdate (fh : FrameHeader) (p : List Nat) : Option (Except RErr Frame) :=
   if p.length ≠ 4 then some (.error (.conn errCodeFrameSize))
   else do
     let v ← u32 (← sliceTo p 4)
@@ -194,11 +200,11 @@ def parseWindowUpdate (fh : FrameHeader) (p : List Nat) : Res Frame :=
     else pure (.ok (.windowUpdate fh inc))
 
 /-- `parseContinuationFrame`. -/
-def parseContinuation (fh : FrameHeader) (p : List Nat) : Res Frame :=
+def parseContinuation (fh : FrameHeader) (p : List Nat) : Option (Except RErr Frame) :=
   if fh.streamID = 0 then some (.error (.conn errCodeProtocol)) else some (.ok (.continuation fh p))
 
 /-- `parsePriorityUpdateFrame`: `Uint32(payload[:4])`, `payload[4:]`. -/
-def parsePriorityUpdate (fh : FrameHeader) (payload : List Nat) : Res Frame :=
+def parsePriorityUpdate (fh : FrameHeader) (payload : List Nat) : Option (Except RErr Frame) :=
   if fh.streamID != 0 then some (.error (.conn errCodeProtocol))
   else if payload.length < 4 then some (.error (.conn errCodeFrameSize))
   else do
@@ -210,7 +216,7 @@ def parsePriorityUpdate (fh : FrameHeader) (payload : List Nat) : Res Frame :=
       pure (.ok (.priorityUpdate fh sid pr))
 
 /-- `typeFrameParser(fh.Type)(fc, fh, countError, payload)`. -/
-def parseFrame (fh : FrameHeader) (p : List Nat) : Res Frame :=
+def parseFrame (fh : FrameHeader) (p : List Nat) : Option (Except RErr Frame) :=
   if fh.type = frameData then parseData fh p
   else if fh.type = frameHeaders then parseHeaders fh p
   else if fh.type = framePriority then parsePriority fh p
@@ -263,11 +269,11 @@ def cutFrame (maxRead : Nat) (bs : List Nat) : Cut :=
 
 /-- what the read loop produces for one frame -/
 inductive Item where
-  | frame (hdr : FrameHeader) (res : Res Frame)
+  | frame (hdr : FrameHeader) (res : Option (Except RErr Frame))
   | tooLarge (hdr : FrameHeader)
   | short
   | panic
-deriving DecidableEq, Repr
+deriving Repr
 
 /-- `for { ReadFrame }` until the input ends or a terminal condition; `fuel` bounds the iterations. -/
 def readFrames (maxRead : Nat) : Nat → List Nat → List Item × Bool   -- (items, ran out of fuel)
